@@ -17,7 +17,9 @@ def majority_sites(ctx):
         for n in U.walk_no_nested(f.node):
             if not (isinstance(n, ast.Compare) and len(n.ops) == 1):
                 continue
-            sides = [n.left, n.comparators[0]]
+            dn = U.deref(P, f, n)           # a threshold hoisted into a local is looked through
+            n._deref = dn
+            sides = [dn.left, dn.comparators[0]]
             for i in (0, 1):
                 th = sides[i]
                 if not isinstance(th, ast.BinOp):
@@ -182,7 +184,7 @@ def r_majority(ctx):
             ctx.violation('%s:majority-over-%s' % (f.qualname, len_attr), loc,
                           'majority threshold measures self.%s instead of the voter set self.%s' % (len_attr, R.voters), instance=inst)
             continue
-        if not any(isinstance(x, (ast.Div, ast.FloorDiv, ast.Mult)) for x in ast.walk(cmpn)):
+        if not any(isinstance(x, (ast.Div, ast.FloorDiv, ast.Mult)) for x in ast.walk(getattr(cmpn, '_deref', cmpn))):
             continue     # e.g. len(self.__otherNodes) == 0
         info = _counter_info(ctx, f, counter, cmpn)
         if info is None:
@@ -204,7 +206,7 @@ def r_majority(ctx):
         try:
             for n in range(0, 9):
                 for k in range(0, n + 1):
-                    val = U.eval_arith(cmpn, {lenkey: n, ckey: init + k})
+                    val = U.eval_arith(getattr(cmpn, '_deref', cmpn), {lenkey: n, ckey: init + k})
                     ctx.tick()
                     maj = 2 * (k + 1) > n + 1
                     if bool(val) != maj:
